@@ -181,14 +181,14 @@ RefusedNotForwarded(s, ev) ==
 \* C09 at the listeners: a UDP response fits max(512, advertised size), any other at most 65535 octets;
 \* records are missing iff TC is set (the scripted upstream says how many answer records it sent)
 UdpLimit(s) == IF s.opt /\ s.optsize > 512 THEN s.optsize ELSE 512
-SizeOk(s, ev) == ev.size <= (IF ev.lst = "udp" THEN UdpLimit(s) ELSE 65535)
+SizeOk(s, ev) == ev.size <= (IF ev.lst \in {"udp", "udpth", "udpmr"} THEN UdpLimit(s) ELSE 65535)
 UpAnswerCount(u) == IF u.rcode = 0 /\ ~u.nodata THEN Len(u.ttls) + u.ntxt ELSE 0
 TruncOk(s, ev) == (RespTok(ev) # 0 /\ RespTok(ev) \in DOMAIN upsent /\ ~upsent[RespTok(ev)].tc) =>
                      (ev.tc = (ev.nan < UpAnswerCount(upsent[RespTok(ev)])))
 \* nothing is omitted when the message's uncompressed encoding (with the proxy's 11-octet OPT if the query had one)
 \* fits the limit of this transport
 NoNeedlessOmitOk(s, ev) == (RespTok(ev) # 0 /\ RespTok(ev) \in DOMAIN upsent /\ ~upsent[RespTok(ev)].tc /\ Has(upsent[RespTok(ev)], "ulen")
-                            /\ upsent[RespTok(ev)].ulen + (IF s.opt THEN 11 ELSE 0) <= (IF ev.lst = "udp" THEN UdpLimit(s) ELSE 65535))
+                            /\ upsent[RespTok(ev)].ulen + (IF s.opt THEN 11 ELSE 0) <= (IF ev.lst \in {"udp", "udpth", "udpmr"} THEN UdpLimit(s) ELSE 65535))
                            => (~ev.tc /\ ev.nan = UpAnswerCount(upsent[RespTok(ev)]))
 
 \* a client whose own subnet stays within its budget is never refused because of other subnets' traffic
